@@ -587,6 +587,193 @@ theorem C09_gen_constants :
     Gen.C09.extendLimit = ">" := by
   decide
 
+/-! ## Structure of the sources, regenerated (Gen/C09.lean: blank-free text of the anchored statements) -/
+
+/-- `align_banded`, `banded._fill_align_table(_affine)`, `get_global_trace_starts` are what the model hard-codes:
+swap iff `len(seq2) < len(seq1)` with negated band and transposed matrix (`bandSetup`); `min/max` of the band; cropping to
+`[-len(seq1)+1, len(seq2)-1]`; width `upper-lower+1`; table `(len+1) × (width+2)` with `neg_inf` in the first / last column
+(`bandedRec`: out-of-band = `none`); `neg_inf = INT32_MIN - min(gap) - min(min_score,0)` (`negInfOf`); G1/G2 initialised with
+`neg_inf`; row range `max(0, i+lower) … min(len2, i+upper+1)`, straightened column `j - i - lower + 1`, neighbours
+`[i-1,j]` (diagonal), `[i,j-1]` (left), `[i-1,j+1]` (top) — i.e. diagonal / left / top of the classic table; local floor
+`≤ 0`; affine transitions M→G with `gap_open`, G→G with `gap_ext`, no G1↔G2; local start = table maximum (`m_table` only
+for affine), semi-global start = max over M, G1, G2 of the start cells; start cells: last row while `seq_j < seq2_len`,
+otherwise the row `(seq2_len-1) - j - lower + 2` of the last column (`startCells`); result cut to `max_number`; swapped
+result returned as `[seq2, seq1]` with flipped trace. -/
+theorem C09_gen_banded_facts : Gen.C09.bandedFacts =
+    [("banded.swap_condition", "len(seq2)<len(seq1)"),
+    ("banded.swap_band", "[-diagfordiaginband]"),
+    ("banded.swap_matrix", "matrix.transpose()"),
+    ("banded.lower_upper", "min(band),max(band)"),
+    ("banded.crop_lower", "max(lower_diag,-len(seq1)+1)"),
+    ("banded.crop_upper", "min(upper_diag,len(seq2)-1)"),
+    ("banded.band_width", "upper_diag-lower_diag+1"),
+    ("banded.table_shape", "(len(seq1)+1,band_width+2)"),
+    ("banded.neg_inf", "np.iinfo(np.int32).min"),
+    ("banded.neg_inf_gap", "min(gap_penalty)ifaffine_penaltyelsegap_penalty"),
+    ("banded.neg_inf_score_guard", "min_score<0"),
+    ("banded.border_left", "neg_inf"),
+    ("banded.border_right", "neg_inf"),
+    ("banded.g1_init", "neg_inf"),
+    ("banded.g2_init", "neg_inf"),
+    ("banded.local_max_affine", "np.max(m_table)"),
+    ("banded.local_max_linear", "np.max(score_table)"),
+    ("banded.semi_max_affine", "max(m_max_score,g1_max_score,g2_max_score)"),
+    ("banded.cut", "trace_list[:max_number]"),
+    ("banded.swapped_result", "[seq2,seq1],np.flip(trace,axis=1),max_score"),
+    ("banded.fill.j_lo", "max(0,seq_i+lower_diag)"),
+    ("banded.fill.j_hi", "min(code2.shape[0],seq_i+upper_diag+1)"),
+    ("banded.fill.j_table", "seq_j-seq_i-lower_diag+1"),
+    ("banded.fill.from_diag", "score_table[i-1,j]+mat[code1[seq_i],code2[seq_j]]"),
+    ("banded.fill.from_left", "score_table[i,j-1]+gap_penalty"),
+    ("banded.fill.from_top", "score_table[i-1,j+1]+gap_penalty"),
+    ("banded.fill.local_floor", "local==Trueandscore<=0"),
+    ("banded.aff.mm", "m_table[i-1,j]+similarity_score"),
+    ("banded.aff.g1m", "g1_table[i-1,j]+similarity_score"),
+    ("banded.aff.g2m", "g2_table[i-1,j]+similarity_score"),
+    ("banded.aff.mg1", "m_table[i,j-1]+gap_open"),
+    ("banded.aff.g1g1", "g1_table[i,j-1]+gap_ext"),
+    ("banded.aff.mg2", "m_table[i-1,j+1]+gap_open"),
+    ("banded.aff.g2g2", "g2_table[i-1,j+1]+gap_ext"),
+    ("banded.aff.local_m", "m_score<=0"),
+    ("banded.aff.local_g1", "g1_score<=0"),
+    ("banded.aff.local_g2", "g2_score<=0"),
+    ("banded.starts.seq_j", "j+(seq1_len-1)+lower_diag-1"),
+    ("banded.starts.test", "seq_j<seq2_len"),
+    ("banded.starts.column_row", "(seq2_len-1)-j-lower_diag+2")] := by
+  decide
+
+/-- `align_local_gapped`, `_align_region`, the X-drop fills and `_extend_table` as modelled by `gappedScore`, `regionLin/Aff`,
+`growShape`, `extendTable`: no upstream region when a seed coordinate is 0; regions `code[start-1::-1]` / `code[start+1:]`;
+seed score added; table `min(len+1, INIT_SIZE)` per dimension; `init_score = threshold + 1`, result `max_score - init_score`
+(`np.max(m_table)` for affine); antidiagonals `k = 1 … len1+len2`; pruned range `min(i_min_k_1, i_min_k_2+1) …
+max(i_max_k_1+1, i_max_k_2+1)` clipped to `k-len2 … len1`, stop when empty; growth when `i_max ≥ rows` / `j_max ≥ cols`;
+cells `i_min … i_max`, `j = k - i`; diagonal term only from a non-zero (valid) cell; top / left + gap penalty; `_max` of the
+three on the score-only path; a new maximum updates `req_score = max_score - threshold`; affine: M→G `gap_open`, G→G `gap_ext`,
+three acceptance tests `≥ req_score`; `_extend_table` doubles one dimension and copies the old block. -/
+theorem C09_gen_gapped_facts : Gen.C09.gappedFacts =
+    [("gapped.no_upstream", "seq1_start==0orseq2_start==0"),
+    ("gapped.upstream_slices", "code1[seq1_start-1::-1],code2[seq2_start-1::-1]"),
+    ("gapped.downstream_slices", "code1[seq1_start+1:],code2[seq2_start+1:]"),
+    ("gapped.seed_score", "score_matrix[code1[seq1_start],code2[seq2_start]]"),
+    ("gapped.default_mts", "np.iinfo(np.int64).max"),
+    ("gapped.init_size", "(_min(len(code1)+1,INIT_SIZE),_min(len(code2)+1,INIT_SIZE))"),
+    ("gapped.init_score", "threshold+1"),
+    ("gapped.region_result_score_only", "max_score-init_score,None"),
+    ("gapped.region_result", "max_score-init_score,trace_list"),
+    ("gapped.region_cut", "trace_list[:max_number]"),
+    ("gapped.fill.k_range", "1,code1.shape[0]+code2.shape[0]+1"),
+    ("gapped.fill.i_min", "_min(i_min_k_1,i_min_k_2+1)"),
+    ("gapped.fill.i_max", "_max(i_max_k_1+1,i_max_k_2+1)"),
+    ("gapped.fill.i_min_clip", "_max(i_min,k-code2.shape[0])"),
+    ("gapped.fill.i_max_clip", "_min(i_max,code1.shape[0])"),
+    ("gapped.fill.stop", "i_min>i_max"),
+    ("gapped.fill.j_max", "k-i_min"),
+    ("gapped.fill.grow_rows", "i_max>=score_table.shape[0]"),
+    ("gapped.fill.grow_cols", "j_max>=score_table.shape[1]"),
+    ("gapped.fill.i_range", "i_min,i_max+1"),
+    ("gapped.fill.j", "k-i"),
+    ("gapped.fill.diag_valid", "from_diag!=0"),
+    ("gapped.fill.from_diag", "matrix[code1[i-1],code2[j-1]]"),
+    ("gapped.fill.from_top", "score_table[i-1,j]+gap_penalty"),
+    ("gapped.fill.from_left", "score_table[i,j-1]+gap_penalty"),
+    ("gapped.fill.score_only", "_max(from_diag,_max(from_left,from_top))"),
+    ("gapped.fill.new_max", "score>max_score"),
+    ("gapped.fill.req_score", "max_score-threshold"),
+    ("gapped.aff.mm_valid", "mm_score!=0"),
+    ("gapped.aff.mg1", "m_table[i,j-1]+gap_open"),
+    ("gapped.aff.g1g1", "g1_table[i,j-1]+gap_ext"),
+    ("gapped.aff.mg2", "m_table[i-1,j]+gap_open"),
+    ("gapped.aff.g2g2", "g2_table[i-1,j]+gap_ext"),
+    ("gapped.aff.accept_m", "m_score>=req_score"),
+    ("gapped.aff.accept_g1", "g1_score>=req_score"),
+    ("gapped.aff.accept_g2", "g2_score>=req_score"),
+    ("gapped.aff.result", "np.max(m_table)"),
+    ("gapped.extend.rows", "(table.shape[0]*2,table.shape[1])"),
+    ("gapped.extend.cols", "(table.shape[0],table.shape[1]*2)"),
+    ("gapped.extend.copy", ":table.shape[0],:table.shape[1]")] := by
+  decide
+
+/-- `align_local_ungapped` / `_seed_extend_generic` as modelled by `ungapped`, `xdropExtend`: upstream only when both seed
+coordinates are `> 0`, the same slices, seed score added, offsets moved by the returned length, trace = two `arange`s,
+loop over `min(len1, len2)` positions, result `(max_score, i_max_score + 1)` with `i_max_score` initialised to −1. -/
+theorem C09_gen_ungapped_facts : Gen.C09.ungappedFacts =
+    [("ungapped.upstream_condition", "upstreamandseq1_start>0andseq2_start>0"),
+    ("ungapped.upstream_slices", "code1[seq1_start-1::-1],code2[seq2_start-1::-1]"),
+    ("ungapped.downstream_slices", "code1[seq1_start+1:],code2[seq2_start+1:]"),
+    ("ungapped.seed_score", "score_matrix[code1[seq1_start],code2[seq2_start]]"),
+    ("ungapped.start_offset", "length"),
+    ("ungapped.stop_offset", "length"),
+    ("ungapped.trace_rows", "np.arange(seq1_start+start_offset,seq1_start+stop_offset),np.arange(seq2_start+start_offset,seq2_start+stop_offset)"),
+    ("ungapped.extend.domain", "_min(code1.shape[0],code2.shape[0])"),
+    ("ungapped.extend.step", "matrix[code1[i],code2[i]]"),
+    ("ungapped.extend.result", "max_score,i_max_score+1"),
+    ("ungapped.extend.init", "-1")] := by
+  decide
+
+/-- every `if … : raise X` of the public functions IN SOURCE ORDER = the order and the exception classes of the guards in
+`bandedScore` / `bandSetup`, `gappedScore`, `ungapped` and `growShape` (`C09_*_rejects`): which error wins is part of the model. -/
+theorem C09_gen_guards :
+    Gen.C09.guards_align_banded =
+    [("notmatrix.get_alphabet1().extends(seq1.get_alphabet())ornotmatrix.get_alphabet2().extends(seq2.get_alphabet())", "ValueError"),
+    ("gap_penalty>0", "ValueError"),
+    ("gap_penalty[0]>0orgap_penalty[1]>0", "ValueError"),
+    ("else", "TypeError"),
+    ("max_number<1", "ValueError"),
+    ("len(seq1)+upper_diag<=0orlower_diag>=len(seq2)", "ValueError"),
+    ("band_width<1", "ValueError")] ∧
+    Gen.C09.guards_align_local_gapped =
+    [("notmatrix.get_alphabet1().extends(seq1.get_alphabet())ornotmatrix.get_alphabet2().extends(seq2.get_alphabet())", "ValueError"),
+    ("gap_penalty>=0", "ValueError"),
+    ("gap_penalty[0]>=0orgap_penalty[1]>=0", "ValueError"),
+    ("else", "TypeError"),
+    ("max_number<1", "ValueError"),
+    ("max_table_size<=0", "ValueError"),
+    ("seq1_start<0orseq2_start<0", "IndexError"),
+    ("seq1_start>=len(code1)orseq2_start>=len(code2)", "IndexError"),
+    ("else", "ValueError"),
+    ("threshold<0", "ValueError")] ∧
+    Gen.C09.guards_align_local_ungapped =
+    [("notmatrix.get_alphabet1().extends(seq1.get_alphabet())ornotmatrix.get_alphabet2().extends(seq2.get_alphabet())", "ValueError"),
+    ("else", "ValueError"),
+    ("threshold<0", "ValueError"),
+    ("seq1_start<0orseq2_start<0", "IndexError")] ∧
+    Gen.C09.guards_extend_table =
+    [("new_shape[0]*new_shape[1]>max_size", "MemoryError")] := by
+  decide
+
+/-- parameters and DEFAULT VALUES of the three public functions = what the adapter passes explicitly and what the
+argument-spelling stream (`…/defaults`) and the documentation state. -/
+theorem C09_gen_defaults :
+    Gen.C09.signature_align_banded =
+    [("seq1", ""),
+    ("seq2", ""),
+    ("matrix", ""),
+    ("band", ""),
+    ("gap_penalty", "-10"),
+    ("local", "False"),
+    ("max_number", "1000")] ∧
+    Gen.C09.signature_align_local_gapped =
+    [("seq1", ""),
+    ("seq2", ""),
+    ("matrix", ""),
+    ("seed", ""),
+    ("threshold", ""),
+    ("gap_penalty", "-10"),
+    ("max_number", "1"),
+    ("direction", "'both'"),
+    ("score_only", "False"),
+    ("max_table_size", "None")] ∧
+    Gen.C09.signature_align_local_ungapped =
+    [("seq1", ""),
+    ("seq2", ""),
+    ("matrix", ""),
+    ("seed", ""),
+    ("threshold", ""),
+    ("direction", "'both'"),
+    ("score_only", "False"),
+    ("check_matrix", "True")] := by
+  decide
+
 /-! ## Non-vacuity -/
 
 set_option maxRecDepth 20000
